@@ -1365,7 +1365,40 @@ func TrickyShapes() []*Shape {
 			obj("Leaf", &Prop{Name: "z", T: &Shape{Kind: KInt}, Default: jsonText(int64(1))})),
 		// two-property recursive object: the shorthand must not apply
 		scope("N", obj("N", p("v", &Shape{Kind: KInt}), p("next", ref("N")))),
+		// free-form positions: directly, as items, as values, as properties (deep nestings pass through them)
+		{Kind: KAny},
+		{Kind: KList, Items: &Shape{Kind: KAny}},
+		{Kind: KMap, Keys: str(), Vals: &Shape{Kind: KAny}},
+		scope("Free", obj("Free", p("free", &Shape{Kind: KAny}), p("items", &Shape{Kind: KList, Items: &Shape{Kind: KAny}}))),
+		// shorthand cycles that pass through the typed variants: a typed object (and its Any() view: the ID's length
+		// decides), a typed nested scope
+		scope("O", obj("O", p("p", &Shape{Kind: KObject, ID: "T", Struct: "P19", Typed: true, Props: []*Prop{p("q", ref("O"))}}))),
+		scope("Ob", obj("Ob", p("p", &Shape{Kind: KObject, ID: "Typ", Struct: "P19", Typed: true, Props: []*Prop{p("q", ref("Ob"))}}))),
+		scope("A", obj("A", p("s", &Shape{Kind: KScope, Root: "I", Typed: true, Objects: []*Shape{obj("I", p("back", ref("I")))}}))),
+		// a typed by-value sub-object of a struct-mapped parent that the input may leave out
+		scope("Top", &Shape{Kind: KObject, ID: "Top", Struct: "P3", Props: []*Prop{
+			p("inner", &Shape{Kind: KObject, ID: "In", Struct: "P1", Typed: true, Props: []*Prop{{Name: "a", T: &Shape{Kind: KInt}, Default: jsonText(int64(2))}, p("b", str()), p("c", &Shape{Kind: KFloat}), p("d", &Shape{Kind: KBool})}}),
+			p("pinner", &Shape{Kind: KObject, ID: "Inn", Struct: "*P1", Typed: true, Props: []*Prop{p("a", &Shape{Kind: KInt}), p("b", str()), p("c", &Shape{Kind: KFloat}), p("d", &Shape{Kind: KBool})}}),
+			p("n", &Shape{Kind: KInt})}}),
 	}
+}
+
+// DescribableTrickyShapes are the tricky shapes that are scopes built with the plain constructors only (what a
+// scope's self-description can express).
+func DescribableTrickyShapes() []*Shape {
+	var out []*Shape
+	for _, s := range TrickyShapes() {
+		typed := false
+		s.Walk(func(x *Shape) {
+			if x.Typed {
+				typed = true
+			}
+		})
+		if s.Kind == KScope && !typed {
+			out = append(out, s)
+		}
+	}
+	return out
 }
 
 // SelfExpandingShapes are scopes in which a default leads back to the property it belongs to: every level applies
